@@ -752,3 +752,8 @@ Definition tail_recognised (suffix : String.string) (callee : list String.string
   str_ends_with (path_to_string callee) suffix.
 Definition kind_of_tail (suffix : String.string) (callee : list String.string) (k : fkind) : fkind :=
   if tail_recognised suffix callee then k else KSync.
+
+(** ... and it does not look at the declared return type at all (lib.rs instrument_precise calls AsyncInfo::from_fn
+    unconditionally): `Pin<Box<dyn Future>>`, a type alias of it, `Self::Fut`, `impl Future` -- the kind is the same. *)
+Definition kind_of_fn (suffix : String.string) (callee : list String.string) (ret : tyspell) (k : fkind) : fkind :=
+  kind_of_tail suffix callee k.
